@@ -343,6 +343,9 @@ package keeper
 //@   ensures @C02 minted: err == nil ==> supply == addcoin(old(supply), lpt, minted.Amount)
 //@   ensures @C01 share:  err == nil && sender != pa && MOD != pa && X > 0 && Y >= 0 && L > 0 ==>
 //@           bal(pa, xd) * bal(pa, od) * L * L >= X * Y * supply(lpt) * supply(lpt)
+// the deposited coin is one of the pool's two reserves (a third denomination held by the pool account as a donation is
+// not a reserve: shares minted against it would dilute the two real reserves)
+//@   ensures @C01 reserve_denom: err == nil ==> xd == cd || xd == std
 //@ end
 
 //@ func Keeper.removeUnilateralLiquidity
